@@ -20,7 +20,9 @@ impl KeyedSink {
         let mut h = std::collections::hash_map::DefaultHasher::new();
         key.hash(&mut h);
         (key.len(), 77u8).hash(&mut h);
-        if self.seen.insert(h.finish()) {
+        if self.sink.needles.is_some() {
+            self.sink.put(line()); // replay mode: no de-duplication, the sink filters by stimulus
+        } else if self.seen.insert(h.finish()) {
             self.sink.put(line());
         }
     }
@@ -55,7 +57,7 @@ pub fn cmd_c02(tier: &str, out: &str) {
     let mut rng = Rng::new(seed());
     let mut ks = KeyedSink::create(out);
     let mut streams = 0u64;
-    let mut emit = |ks: &mut KeyedSink, s: &[u8], evs: &[Ev], new_from: usize, fe: u16| {
+    let mut emit = |ks: &mut KeyedSink, s: &[u8], ops: &[u32], evs: &[Ev], new_from: usize, fe: u16| {
         for e in evs {
             if e[1] == 1 && e[0] >= 0 && (e[0] as usize) > new_from {
                 let m = &e[2..];
@@ -63,7 +65,7 @@ pub fn cmd_c02(tier: &str, out: &str) {
                 let keep = 2 * m.len() + 24;
                 let pre = &s[pos.saturating_sub(keep)..pos];
                 let key = format!("{:?}|{:?}", pre, m);
-                ks.put(&key, || format!("{{\"pre\":{},\"m\":{},\"fe\":{}}}", jarr(pre), jarr(m), fe));
+                ks.put(&key, || format!("{{\"pre\":{},\"m\":{},\"fe\":{},\"ops\":{}}}", jarr(pre), jarr(m), fe, jarr(ops)));
             }
         }
     };
@@ -73,13 +75,13 @@ pub fn cmd_c02(tier: &str, out: &str) {
         // positions in `ops` vs positions in bytes: events carry byte positions
         let new_from_bytes = ops[..new_from].iter().filter(|o| **o < 256).count();
         let ev = run_push::<Vec<u8>>(ops, false);
-        emit(&mut ks, &s, &ev, new_from_bytes, 1);
+        emit(&mut ks, &s, ops, &ev, new_from_bytes, 1);
         if !has_calls(ops) {
             let nfix = cap_at_least(s.len().min(48));
-            emit(&mut ks, &s, &run_push_n(nfix, ops, false), new_from_bytes, 2);
-            emit(&mut ks, &s, &run_stream::<Vec<u8>>(&s, 0), new_from_bytes, 4);
-            emit(&mut ks, &s, &run_reader_vec(&s, Src::Iter, 0), new_from_bytes, 7);
-            emit(&mut ks, &s, &run_reader_vec(&s, Src::Io, 0), new_from_bytes, 8);
+            emit(&mut ks, &s, ops, &run_push_n(nfix, ops, false), new_from_bytes, 2);
+            emit(&mut ks, &s, ops, &run_stream::<Vec<u8>>(&s, 0), new_from_bytes, 4);
+            emit(&mut ks, &s, ops, &run_reader_vec(&s, Src::Iter, 0), new_from_bytes, 7);
+            emit(&mut ks, &s, ops, &run_reader_vec(&s, Src::Io, 0), new_from_bytes, 8);
         }
     });
     ks.finish("c02", &format!(",\"streams\":{}", streams));
@@ -441,5 +443,17 @@ pub fn cmd_c05(tier: &str, out: &str) {
             }
         }
     }
-    ks.finish("c05", &format!(",\"streams\":{}", streams));
+    // encoders: every entry point returns normally for every payload and capacity, also when polled after the end
+    let mut rng2 = Rng::new(seed() ^ 0x55);
+    let pays = crate::tr::payload_family(if tier == "thorough" { "thorough" } else { "quick" }, &mut rng2);
+    let mut nenc = 0u64;
+    for (k, p) in pays.iter().enumerate() {
+        if tier != "thorough" && p.len() <= 6 && k % 7 != 0 {
+            continue;
+        }
+        nenc += 1;
+        let kinds = crate::tr::encoder_outcomes(p);
+        ks.put(&format!("enc|{:?}", kinds), || format!("{{\"cap\":-4,\"p\":{},\"e\":{}}}", jarr(p), jarr2(&kinds)));
+    }
+    ks.finish("c05", &format!(",\"streams\":{},\"encoder_payloads\":{}", streams, nenc));
 }
